@@ -167,7 +167,7 @@ def run(ctx):
             res.violations.append(vlib.Violation(
                 "the rows shown are not exactly the metrics with value/reference >= threshold (or saturated)", inp,
                 expected="%d rows (+ at most %d within 2^-50 of the threshold)" % (shown, nband), observed="%d rows" % nrows_items,
-                cls=adversarial.get(req)))
+                cls=adversarial.get(req) if nrows_items == shown + 1 else None))
         if thr <= 0 and not tbl.startswith("No problems"):
             # verbose shows every metric
             want = len(ITEMS) + len([g for g in groups if g[2] is not None])
